@@ -161,6 +161,9 @@ def reformat_files(
         return
 
     # Multiple files case
+    if inplace and "-" in files:
+        # Check up front so that no file is rewritten before the error is reported.
+        raise ValueError("Cannot use `inplace` with stdin")
     if not inplace and output and output != "-":
         raise ValueError(
             "Cannot specify output file when processing multiple files (use --inplace instead)"
